@@ -134,7 +134,7 @@ def _try_json(x):
 
 
 def tlc(module, cfg, name, workers=8, env=None, timeout=1800, simulate=None, extra=None,
-        on_line=None, heap="6g", deadlock=False, coverage=False, keep_printed=True):
+        on_line=None, heap="6g", deadlock=False, coverage=False, keep_printed=True, gen_text=None, raw_out=None):
     """Run TLC on spec/<module>.tla with the given cfg text. Returns TlcResult.
 
     on_line(obj): called for every parsed PrintT value (streaming; keeps memory flat).
@@ -145,7 +145,12 @@ def tlc(module, cfg, name, workers=8, env=None, timeout=1800, simulate=None, ext
         cfg += "\nCHECK_DEADLOCK FALSE\n"
     with open(cfgp, "w") as f:
         f.write(cfg)
-    cmd = ["java", "-XX:+UseParallelGC", f"-Xmx{heap}", "-Xss1g",
+    modpath = os.path.join(SPEC, module + ".tla")
+    if gen_text is not None:      # generated wrapper module (constants as definitions); lives in the work dir
+        modpath = os.path.join(wd, module + ".tla")
+        with open(modpath, "w") as f:
+            f.write(gen_text)
+    cmd = ["java", "-XX:+UseParallelGC", f"-Xmx{heap}", "-Xss1g", f"-DTLA-Library={SPEC}",
            "-Dtlc2.tool.queue.IStateQueue=StateDeque" if workers == 1 and simulate is None else "-Dx=y",
            "-cp", TLA_JAR, "tlc2.TLC", "-workers", str(workers), "-metadir", os.path.join(wd, "meta"),
            "-cleanup", "-noGenerateSpecTE", "-config", cfgp]
@@ -155,19 +160,31 @@ def tlc(module, cfg, name, workers=8, env=None, timeout=1800, simulate=None, ext
         cmd += ["-simulate", simulate]
     if extra:
         cmd += extra
-    cmd.append(os.path.join(SPEC, module + ".tla"))
+    cmd.append(modpath)
     e = dict(os.environ)
     e.pop("JAVA_TOOL_OPTIONS", None)
     if env:
         e.update({k: str(v) for k, v in env.items()})
     res = TlcResult()
     t = time.time()
-    p = subprocess.Popen(cmd, cwd=wd, env=e, stdout=subprocess.PIPE, stderr=subprocess.STDOUT, text=True, bufsize=1 << 20)
+    if raw_out:
+        # bulk emission: TLC writes straight to a file that the Rust harness parses; we only scan the
+        # non-payload lines afterwards
+        with open(raw_out, "wb") as fo:
+            try:
+                rc = subprocess.run(cmd, cwd=wd, env=e, stdout=fo, stderr=subprocess.STDOUT, timeout=timeout).returncode
+            except subprocess.TimeoutExpired:
+                raise ToolError(f"TLC {module} timed out after {timeout}s")
+        p = None
+        stream = (l for l in open(raw_out, "r", errors="replace") if l[:1] != '"')
+    else:
+        p = subprocess.Popen(cmd, cwd=wd, env=e, stdout=subprocess.PIPE, stderr=subprocess.STDOUT, text=True, bufsize=1 << 20)
+        stream = p.stdout
     tail = []
     in_error = False
     try:
-        for line in p.stdout:
-            if time.time() - t > timeout:
+        for line in stream:
+            if p is not None and time.time() - t > timeout:
                 p.kill()
                 raise ToolError(f"TLC {module} timed out after {timeout}s")
             c = line[:1]
@@ -198,15 +215,17 @@ def tlc(module, cfg, name, workers=8, env=None, timeout=1800, simulate=None, ext
             m = re.match(r"^<(\w+) line \d+, col \d+ to line \d+, col \d+ of module (\w+)>: (\d+):(\d+)", line)
             if m:
                 res.coverage[m.group(1)] = (int(m.group(3)), int(m.group(4)))
-        p.wait(timeout=60)
+        if p is not None:
+            p.wait(timeout=60)
+            rc = p.returncode
     finally:
-        if p.poll() is None:
+        if p is not None and p.poll() is None:
             p.kill()
     res.wall = time.time() - t
     res.raw_tail = "".join(tail[-80:])
-    log(f"[tlc {module}/{name}] {res.wall:.1f}s generated={res.generated} distinct={res.distinct} rc={p.returncode} errors={len(res.errors)}")
-    if p.returncode != 0 and not res.errors:
-        res.errors.append(f"TLC exit code {p.returncode}")
+    log(f"[tlc {module}/{name}] {res.wall:.1f}s generated={res.generated} distinct={res.distinct} rc={rc} errors={len(res.errors)}")
+    if rc != 0 and not res.errors:
+        res.errors.append(f"TLC exit code {rc}")
     shutil.rmtree(os.path.join(wd, "meta"), ignore_errors=True)
     return res
 
@@ -302,7 +321,7 @@ class Check:
                 json.dump({"property": self.prop, "sig": vs[0]["sig"], "what": vs[0]["what"],
                            "count": len(vs), "cases": [x["case"] for x in vs[:20]]}, f, indent=1)
             print(f"VIOLATION property={self.prop} replay={path}")
-            print(f"  {vs[0]['what']}  ({len(vs)} cases) e.g. {json.dumps(vs[0]['case'])[:400]}")
+            print(f"  sig={k} cases={len(vs)}: {vs[0]['what'][:700]}")
             printed += 1
         self.cov["distinct_nontrivial"] = max(self.cov["distinct_nontrivial"], len(self._distinct))
         ev = {"property_id": self.prop, "tier": self.tier, "seed": self.seed, "level": self.level,
